@@ -62,6 +62,8 @@ def main():
         items.append((name, p, props, benign))
     for m in sorted(glob.glob(os.path.join(VERIF, 'seeded', '*', 'meta.json'))):
         meta = json.load(open(m))
+        if meta.get('skip'):
+            continue    # recorded but not a valid change for its property (see its note)
         name = 'seeded_' + os.path.basename(os.path.dirname(m))
         items.append((name, os.path.join(os.path.dirname(m), 'patch.diff'),
                       [meta['property']] + list(meta.get('also', [])), False))
